@@ -36,7 +36,6 @@ import (
 	"github.com/refraction-networking/uquic/internal/protocol"
 	"github.com/refraction-networking/uquic/internal/qerr"
 	"github.com/refraction-networking/uquic/internal/utils"
-	"github.com/refraction-networking/uquic/internal/verifmc/canon"
 	"github.com/refraction-networking/uquic/internal/verifmc/explore"
 	"github.com/refraction-networking/uquic/internal/wire"
 )
@@ -85,6 +84,7 @@ type c16MgrBounds struct {
 	nPth    int    // path IDs 1..nPth
 	allRPT  bool   // Retire Prior To: every value 0..seq (else 0, 2 and seq)
 	confSeq uint64 // conflicting CID / token variants for sequence numbers 1..confSeq
+	lean    bool   // Retire Prior To only 0 and seq; no SentPacket / SetStatelessResetToken / preferred address
 }
 
 type c16Mgr struct {
@@ -110,6 +110,10 @@ type c16Mgr struct {
 	reported uint32 // bit s: RETIRE_CONNECTION_ID(s) was queued at least once
 	dead     bool
 	outcome  string
+	ocOp     string
+	ocRes    string
+	ocRot    bool
+	ocRIU    bool
 }
 
 func newC16Mgr(cfg c16MgrCfg, b c16MgrBounds) *c16Mgr {
@@ -194,16 +198,16 @@ func (in *c16Mgr) Ops() []explore.Op {
 	}
 	m := in.m
 	ops := []explore.Op{{N: "get"}}
-	if m.packetsSinceLastChange < c16RotationPeriod {
+	if m.packetsSinceLastChange < c16RotationPeriod && !in.lean {
 		ops = append(ops, explore.Op{N: "sent"})
 	}
 	if !m.handshakeComplete {
 		ops = append(ops, explore.Op{N: "hc"})
 	}
-	if m.activeSequenceNumber == 0 && m.activeStatelessResetToken == nil && in.tokSup[0] == 0 {
+	if m.activeSequenceNumber == 0 && m.activeStatelessResetToken == nil && in.tokSup[0] == 0 && !in.lean {
 		ops = append(ops, explore.Op{N: "settoken"})
 	}
-	if in.issued == 1 && in.maxRPT == 0 && !in.cfg.zero {
+	if in.issued == 1 && in.maxRPT == 0 && !in.cfg.zero && !in.lean {
 		ops = append(ops, explore.Op{N: "pref"})
 	}
 	for p := 1; p <= in.nPth; p++ {
@@ -217,7 +221,7 @@ func (in *c16Mgr) Ops() []explore.Op {
 	}
 	for seq := uint64(1); seq <= in.S; seq++ {
 		for rpt := uint64(1); rpt <= seq; rpt++ {
-			if in.allRPT || rpt == 2 || rpt == seq {
+			if in.allRPT || rpt == 2 && !in.lean || rpt == seq {
 				ops = append(ops, explore.Op{N: "ncid", A: int(seq), B: int(rpt)})
 			}
 		}
@@ -245,6 +249,7 @@ func c16ErrClass(err error) string {
 func (in *c16Mgr) Apply(op explore.Op) *explore.Fail {
 	m := in.m
 	in.retires, in.otherFr, in.tokAdd, in.tokRem = in.retires[:0], 0, 0, 0
+	in.outcome = ""
 	heldBefore, _ := in.held()
 	reportedBefore := in.reported
 	activeBefore := m.activeSequenceNumber
@@ -356,9 +361,12 @@ func (in *c16Mgr) Apply(op explore.Op) *explore.Fail {
 	if fl := in.checkTokens(op, inUse); fl != nil {
 		return fl
 	}
-	in.outcome = fmt.Sprintf("%s:%s retire=%d tok+%d-%d rot=%v", op.N, res, len(in.retires), in.tokAdd, in.tokRem, activeBefore != m.activeSequenceNumber)
-	if in.otherFr != 0 {
-		in.outcome += " other-frames"
+	in.ocOp, in.ocRes, in.ocRot = op.N, res, activeBefore != m.activeSequenceNumber
+	in.ocRIU = false
+	for _, s := range inUse {
+		if (in.reported&^reportedBefore)&(1<<s) != 0 {
+			in.ocRIU = true // informational: RETIRE_CONNECTION_ID queued for an ID that stays in use
+		}
 	}
 	return nil
 }
@@ -475,11 +483,24 @@ func c16Bits(x uint32) []int {
 	return l
 }
 
-func (in *c16Mgr) Outcome() string { return in.outcome }
+// Outcome is formatted on demand (Apply runs many times per reported transition).
+func (in *c16Mgr) Outcome() string {
+	if in.outcome != "" {
+		return in.outcome
+	}
+	oc := fmt.Sprintf("%s:%s retire=%d tok+%d-%d rot=%v", in.ocOp, in.ocRes, len(in.retires), in.tokAdd, in.tokRem, in.ocRot)
+	if in.otherFr != 0 {
+		oc += " other-frames"
+	}
+	if in.ocRIU {
+		oc += " reported-while-in-use"
+	}
+	return oc
+}
 
 func (in *c16Mgr) Key() string {
 	var sb strings.Builder
-	sb.WriteString(canon.Dump(in.m, canon.Options{}))
+	c16MgrDump(&sb, in.m)
 	fmt.Fprintf(&sb, "|adv=%d iss=%x rpt=%d rep=%x dead=%v tw=%v%v cs=%x ts=%x|%s", in.advLimit, in.issued, in.maxRPT, in.reported, in.dead, in.twice, in.revived,
 		in.cidSup[:in.S+1], in.tokSup[:in.S+1], in.tokenList())
 	return sb.String()
@@ -487,6 +508,7 @@ func (in *c16Mgr) Key() string {
 
 func c16MgrPart(name string, cfg c16MgrCfg) explore.Part {
 	return explore.BFSPart(name, func(e explore.Env) explore.BFSSpec {
+		c16CheckLayout()
 		var b c16MgrBounds
 		depth := 0
 		switch {
@@ -496,9 +518,9 @@ func c16MgrPart(name string, cfg c16MgrCfg) explore.Part {
 				b = c16MgrBounds{S: 3, nPth: 2, allRPT: true}
 			}
 		case cfg.uquic:
-			b, depth = c16MgrBounds{S: 5, nPth: 1}, 6
+			b, depth = c16MgrBounds{S: 6, nPth: 1, lean: true}, 7
 			if e.Thorough() {
-				b, depth = c16MgrBounds{S: 6, nPth: 1, confSeq: 1}, 8
+				b, depth = c16MgrBounds{S: 8, nPth: 1, lean: true}, 10
 			}
 		default:
 			b, depth = c16MgrBounds{S: 5, nPth: 1, confSeq: 1}, 7
@@ -513,12 +535,14 @@ func c16MgrPart(name string, cfg c16MgrCfg) explore.Part {
 		rpt := "0, 2, seq"
 		if b.allRPT {
 			rpt = "0..seq"
+		} else if b.lean {
+			rpt = "0, seq; lean alphabet: no SentPacket / SetStatelessResetToken / AddFromPreferredAddress"
 		}
 		return explore.BFSSpec{
 			New:              func() explore.Instance { return newC16Mgr(cfg, b) },
 			MaxDepth:         depth,
 			PanicIsViolation: true,
-			Rule: fmt.Sprintf("BFS (%s) over the real connIDManager (zero-length=%v, spec-driven=%v); alphabet: NEW_CONNECTION_ID(seq 1..%d, retire_prior_to %s; conflicting CID / conflicting token for seq 1..%d), Get, SentPacket (rotation period owned: %d), SetHandshakeComplete, SetStatelessResetToken, AddFromPreferredAddress, GetConnIDForPath/RetireConnIDForPath(path 1..%d), Close%s; state = canon(connIDManager) + peer model + registered-token set",
+			Rule: fmt.Sprintf("BFS (%s) over the real connIDManager (zero-length=%v, spec-driven=%v); alphabet: NEW_CONNECTION_ID(seq 1..%d, retire_prior_to %s; conflicting CID / conflicting token for seq 1..%d), Get, SentPacket (rotation period owned: %d), SetHandshakeComplete, SetStatelessResetToken, AddFromPreferredAddress, GetConnIDForPath/RetireConnIDForPath(path 1..%d), Close%s; state = every field of the connIDManager + peer model + registered-token set",
 				bound, cfg.zero, cfg.uquic, b.S, rpt, b.confSeq, c16RotationPeriod, b.nPth, map[bool]string{true: ", first op SetConnectionIDLimit(2..8) as u_connection.go does", false: ""}[cfg.uquic]),
 		}
 	})
